@@ -26,7 +26,21 @@ fn name(i: usize) -> String {
 /// programs that press on one cap each
 fn pressure_program(rng: &mut Rng) -> Vec<String> {
     let mut l = vec![];
-    match rng.below(12) {
+    match rng.below(13) {
+        12 => {
+            // more than 32 distinct inner loops abandoned one after the other by the outer NEXT / a new FOR:
+            // at most two loops are ever open, so nothing may be refused
+            let n = rng.pick(&[33usize, 36, 40]);
+            let by_next = rng.chance(1, 2);
+            for i in 1..=n {
+                if by_next {
+                    l.push(format!("{} FOR C = 1 TO 1 : FOR {} = 1 TO 2 : NEXT C", 10 * i, name(i)));
+                } else {
+                    l.push(format!("{} FOR C = 1 TO 1 : FOR {} = 1 TO 2", 10 * i, name(i)));
+                }
+            }
+            l.push("9000 PRINT \"done\"".into());
+        }
         0 => {
             // GOSUB recursion to depth d
             let d = rng.pick(&[31, 32, 33, 40]);
@@ -190,6 +204,9 @@ struct Mon {
     /// what the tick about to be made will attempt, if it is an attempt to exceed a cap:
     /// (description, expected error kind)
     pending_attempt: Option<(String, &'static str)>,
+    /// the tick about to be made executes a plain `FOR v = …` / `NEXT v` / `NEXT`:
+    /// (is_for, variable, open loops before it)
+    pending_loop: Option<(bool, Option<String>, Vec<String>)>,
     shape: u64,
     max_frames: usize,
     max_loops: usize,
@@ -218,8 +235,47 @@ fn after_call(s: &mut Sess, op: &Op, call: &crate::sess::Call, m: &mut Mon, ctx:
         }
     }
     let p = s.probe(false);
+    // abandoning or re-entering loops accumulates nothing: one FOR / NEXT statement turns the table of
+    // open loops `before` into before[..i] (+ v), where i is v's position (or the end for a new v)
+    if let Some((is_for, var, before)) = m.pending_loop.take() {
+        if matches!(op, Op::Tick) && call.err().is_none() {
+            let after: Vec<String> = p.loops.iter().map(|l| l.symbol.clone()).collect();
+            let idx = match &var {
+                Some(v) => before.iter().position(|b| b == v),
+                None => before.len().checked_sub(1),
+            };
+            let name = var.clone().or_else(|| before.last().cloned());
+            let ok = match (is_for, idx, &name) {
+                (true, Some(i), Some(n)) => after.len() == i + 1 && after[..i] == before[..i] && &after[i] == n,
+                (true, None, Some(n)) => after.len() == before.len() + 1 && after[..before.len()] == before[..] && &after[before.len()] == n,
+                (false, Some(i), Some(n)) => (after.len() == i && after[..] == before[..i]) || (after.len() == i + 1 && after[..i] == before[..i] && &after[i] == n),
+                _ => true, // NEXT with nothing open fails; not reached without an error
+            };
+            ctx.count(if is_for { "reach.loop_table_step_checked(FOR)" } else { "reach.loop_table_step_checked(NEXT)" });
+            if before.len() >= 2 && idx.map(|i| i + 1 < before.len()).unwrap_or(false) {
+                ctx.count("reach.loop_statement_abandons_inner_loops");
+            }
+            if !ok {
+                return v(
+                    "loop-table-accumulates",
+                    format!("{} with {} open, {} after", if is_for { "FOR" } else { "NEXT" }, before.len(), after.len()),
+                    format!("{} {:?}: open loops were {:?}, are now {:?}: loops inside the named one must be forgotten and nothing else touched", if is_for { "FOR" } else { "NEXT" }, var, before, after),
+                );
+            }
+        }
+    }
     if call.state == St::Running && p.location.1 < p.line_tokens.len() {
         let t = &p.line_tokens[p.location.1];
+        let tok = |k: usize| p.line_tokens.get(p.location.1 + k).map(|x| x.as_str());
+        let is_ident = |x: &str| x.chars().next().map(|c| c.is_ascii_alphabetic()).unwrap_or(false) && x.chars().all(|c| c.is_ascii_alphanumeric() || c == '$');
+        let open: Vec<String> = p.loops.iter().map(|l| l.symbol.clone()).collect();
+        if t == "FOR" && tok(2) == Some("=") && tok(1).map(is_ident).unwrap_or(false) {
+            m.pending_loop = Some((true, tok(1).map(|x| x.to_string()), open));
+        } else if t == "NEXT" && matches!(tok(1), None | Some(":")) {
+            m.pending_loop = Some((false, None, open));
+        } else if t == "NEXT" && tok(1).map(is_ident).unwrap_or(false) && matches!(tok(2), None | Some(":")) {
+            m.pending_loop = Some((false, tok(1).map(|x| x.to_string()), open));
+        }
         if t == "GOSUB" && p.stack.len() == 32 && p.line_tokens.get(p.location.1 + 1).map(|x| x.parse::<f64>().is_ok()).unwrap_or(false) {
             m.pending_attempt = Some((format!("GOSUB with 32 frames on the stack (line {:?})", p.location.0), "OutOfMemory(StackOverflow)"));
         } else if t == "DIM" {
@@ -331,6 +387,7 @@ impl Prop for C16 {
         let mut ops = vec![];
         let mut m = Mon {
             pending_attempt: None,
+            pending_loop: None,
             shape: 0xcbf29ce484222325,
             max_frames: 0,
             max_loops: 0,
@@ -432,6 +489,7 @@ impl Prop for C16 {
         let mut s = Sess::new();
         let mut m = Mon {
             pending_attempt: None,
+            pending_loop: None,
             shape: 0,
             max_frames: 0,
             max_loops: 0,
